@@ -575,8 +575,31 @@ def run():
         regs = pairs(reg_body)
         n_calls = len(re.findall(r'"\w+"', reg_body))
         if len(regs) == 0:
-            # the (name, implementation) pairs may be tabulated elsewhere and registered in a loop
-            regs = pairs(whole)
+            # the (name, implementation) pairs may be tabulated elsewhere and registered in a loop:
+            # first the constants / statics the function refers to, then anywhere in the crate
+            for cname in dict.fromkeys(re.findall(r"\b[A-Z][A-Z0-9_]{2,}\b", reg_body)):
+                m = re.search(r"\b(?:const|static)\s+%s\s*:[^=;]*=\s*" % re.escape(cname), whole)
+                if m:
+                    depth, k = 0, m.end()
+                    while k < len(whole):
+                        ch = whole[k]
+                        if ch == '"':
+                            k += 1
+                            while k < len(whole) and whole[k] != '"':
+                                k += 2 if whole[k] == "\\" else 1
+                        elif ch in "([{":
+                            depth += 1
+                        elif ch in ")]}":
+                            depth -= 1
+                        elif ch == ";" and depth == 0:
+                            break
+                        k += 1
+                    regs = pairs(whole[m.end():k])
+                    if regs:
+                        break
+            if len(regs) == 0:
+                nullary = set(re.findall(r"impl\s+(\w+)\s*\{[^}]*?fn\s+new\s*\(\s*\)", whole))
+                regs = [(nm, st) for nm, st in pairs(whole) if st in nullary or not nullary]
             n_calls = len(regs)
             if regs:
                 notes.append("registrations read from a table outside register_builtin_functions")
